@@ -245,11 +245,38 @@ def run(repo, chk):
                 continue
             h = held[q] | locks_held_at(node, locks, fi.node)
             by_state.setdefault(state, []).append((q, node, kind, h))
-    # check-then-act on the per-function stack
+    # check-then-act: a store to shared state that is control-dependent on a test reading the same state (directly, or through a
+    # local bound to such a read) -- the read and the test must hold the same lock as the store
+    for q in sorted(reach):
+        fi = repo.functions[q]
+        for state, node, kind in write_sites(repo, fi, mutables):
+            if state in EXEMPT or kind != "store":
+                continue
+            if ":" not in state:
+                continue          # "function-globals": no single attribute to test
+            attr = state.split(":", 1)[1].split(".")[-1]
+            def mentions(e, names=()):
+                for x in ast.walk(e):
+                    if isinstance(x, ast.Attribute) and x.attr == attr:
+                        return True
+                    if isinstance(x, ast.Constant) and x.value == attr:
+                        return True
+                    if isinstance(x, ast.Name) and x.id in names:
+                        return True
+                return False
+            derived = {}
+            for a in walk_local(fi.node):
+                if isinstance(a, ast.Assign) and len(a.targets) == 1 and isinstance(a.targets[0], ast.Name) and a is not node and mentions(a.value):
+                    derived[a.targets[0].id] = a
+            cur, child = getattr(node, "_parent", None), node
+            while cur is not None and cur is not fi.node:
+                if isinstance(cur, ast.If) and mentions(cur.test, set(derived)):
+                    by_state.setdefault(state, []).append((q, cur.test, "check-then-act (test)", held[q] | locks_held_at(cur, locks, fi.node)))
+                    for nm, a in derived.items():
+                        if any(isinstance(x, ast.Name) and x.id == nm for x in ast.walk(cur.test)):
+                            by_state.setdefault(state, []).append((q, a, "check-then-act (read)", held[q] | locks_held_at(a, locks, fi.node)))
+                child, cur = cur, getattr(cur, "_parent", None)
     tl = repo.func("overlay._tooler")
-    for n in walk_local(tl.node):
-        if isinstance(n, ast.If) and "hasattr(fn, '__ptera_stack__')" in norm(n.test) and "overlay._tooler" in reach:
-            by_state.setdefault("function-object:__ptera_stack__", []).append(("overlay._tooler", n, "check-then-act", held["overlay._tooler"] | locks_held_at(n.body[0], locks, tl.node)))
     tf = repo.func("transform.TransformSet.transform_for")
     for n in walk_local(tf.node):
         if isinstance(n, ast.If) and "in self.transforms" in norm(n.test) and tf.qual in reach:
